@@ -807,6 +807,18 @@ func (env *Env) call(e *SExpr) TV {
 			Term{fmt.Sprintf("(forall ((m!fi Int)) %s)", tImp(tAnd(tLe(intLit(0), m), tLt(m, p)), tNot(tEq(probe, v))).S), SBool})
 		env.assumeSide(def)
 		return mathInt(p)
+	case "visited":
+		// visited(k): key k has already been produced by the enclosing `range` over a map
+		var pick *rangeIter
+		for _, it := range env.cur.rangeIt {
+			if pick == nil || (env.loopHeader != nil && it.nextIn != nil && it.nextIn.Block() == env.loopHeader) {
+				pick = it
+			}
+		}
+		if pick == nil {
+			sfail("visited(k) used outside a range-over-map loop")
+		}
+		return boolTV(tSelect(pick.visited, env.evalInt(e.Args[0]), SBool))
 	case "athead":
 		// athead(e): e in the state at the head of the current loop iteration
 		if env.head == nil {
